@@ -72,8 +72,69 @@ def isinstance_rule(I, v, t):
     return Const(tn in names)
 
 
+def regex_optional_groups(pattern):
+    """names of the groups of a compiled pattern that may be None in a match (inside an optional repeat or a branch)"""
+    import re._parser as sre
+    tree = sre.parse(pattern.pattern, pattern.flags)
+    names = {i: n for n, i in pattern.groupindex.items()}
+    out = set()
+
+    def walk(seq, optional):
+        for op, av in seq:
+            op = str(op)
+            if op == "SUBPATTERN":
+                gid, _, _, sub = av
+                if optional and gid in names:
+                    out.add(names[gid])
+                walk(sub, optional)
+            elif op in ("MAX_REPEAT", "MIN_REPEAT", "POSSESSIVE_REPEAT"):
+                lo, _, sub = av
+                walk(sub, optional or lo == 0)
+            elif op == "BRANCH":
+                for sub in av[1]:
+                    walk(sub, True)
+            elif op in ("ASSERT", "ASSERT_NOT"):
+                walk(av[1], True)
+            elif op == "GROUPREF_EXISTS":
+                for sub in av[1:]:
+                    if sub is not None:
+                        walk(sub, True)
+            elif op == "ATOMIC_GROUP":
+                walk(av, optional)
+    walk(tree, False)
+    return out
+
+
+def regex_match(I, pattern, method, args, node):
+    """<compiled regex>.fullmatch/match/search(text): a constant text is matched by the standard library, an unknown
+    text gives the match object of the path on which it matches (named groups become scalars derived from the text)"""
+    text = args[0] if args else Top("regex without text")
+    if isinstance(text, Const) and isinstance(text.v, str):
+        m = getattr(pattern, method)(text.v)
+        if m is None:
+            return Const(None)
+        return Obj("Match", {"re": Const(pattern), "groups": DictS(OrderedDict((k, Const(v)) for k, v in m.groupdict().items()))})
+    if isinstance(text, Leaf):
+        opt = regex_optional_groups(pattern)
+        items = OrderedDict()
+        for g in pattern.groupindex:
+            leaf = Leaf("str", text.src + (g,), text.ops)
+            items[g] = Choice([leaf, Const(None)], [f"{g} present", f"{g} absent"]) if g in opt else leaf
+        I.assumptions.add("regular expressions: shapes follow the path on which the text matches")
+        return Obj("Match", {"re": Const(pattern), "groups": DictS(items), "text": text})
+    return Top("regex match on a value of unknown shape", deps=I.leaves(text))
+
+
 def call_lib(I, name, args, kwargs, node):
     a = args
+    if name == "re.compile":
+        import re
+        if a and isinstance(a[0], Const) and isinstance(a[0].v, str) and all(isinstance(x, Const) for x in list(a[1:]) + list(kwargs.values())):
+            try:
+                return Const(re.compile(a[0].v, *[x.v for x in a[1:]], **{k: v.v for k, v in kwargs.items()}))
+            except re.error as e:
+                raise _Raise(f"re.error {e}")
+        return Top("re.compile of a non-literal pattern")
     if name == "curry" or name.endswith(".partial"):
         if not a:
             return Top("curry()")
@@ -94,6 +155,8 @@ def call_lib(I, name, args, kwargs, node):
     if name == "keymap":
         def km(k, v):
             nk = I.call(a[0], [Const(k)], {}, node)
+            if not isinstance(nk, Const) and to_py(nk) is not _NOPY:
+                nk = Const(to_py(nk))
             if not isinstance(nk, Const):
                 raise ShapeError(f"keymap produced a non-constant key for {k!r}")
             return nk.v, v
@@ -625,6 +688,11 @@ def call_method(I, recv, name, args, kwargs, node):
                 if isinstance(x, Const) and x.v == args[0].v:
                     return Const(i)
         return Top(f"list.{name}")
+    import re as _re
+    if isinstance(recv, Const) and isinstance(recv.v, _re.Pattern):
+        if name in ("fullmatch", "match", "search"):
+            return regex_match(I, recv.v, name, args, node)
+        return Top(f"regex.{name}")
     if isinstance(recv, Const):
         pyargs = [to_py(x) for x in args]
         if all(p is not _NOPY for p in pyargs) and not kwargs and not all(isinstance(x, Const) for x in args):
@@ -659,6 +727,15 @@ def call_method(I, recv, name, args, kwargs, node):
         return Top(f"method {name} on symbolic list", deps=I.leaves(recv))
     if isinstance(recv, Top):
         return Top(f"{recv.reason}.{name}", deps=recv.deps)
+    if isinstance(recv, Obj) and recv.cls == "Match":
+        groups = recv.fields["groups"]
+        if name == "groupdict":
+            return groups.copy()
+        if name == "group" and len(args) == 1 and isinstance(args[0], Const) and args[0].v in groups.items:
+            return groups.items[args[0].v]
+        if name == "groups":
+            return TupS(list(groups.items.values()))
+        return Top(f"match.{name}")
     if isinstance(recv, Obj):
         if recv.cls == "Group" and name == "get":
             data = recv.fields.get("data")
